@@ -915,6 +915,18 @@ class Lvalue(Expr):
 
     @property
     def type(self):
+        if self.is_const:
+            # the name of a constant has the type of its value, not
+            # the type its spelling would give a variable
+            # (CONST g = "hello" is a string)
+            const = self.parent_routine.local_consts.get(self.base_var)
+            if const is None:
+                const = self.context.global_consts[self.base_var]
+            if isinstance(const, tuple):
+                # (type, value) as recorded in the debug info
+                return const[0]
+            return const.type
+
         var_type = self.base_type
 
         if var_type.is_array and self.array_indices:
